@@ -228,6 +228,25 @@ def check(run, repo, world):
     run.ob("R-MEMW-LOCK", Q + "#lockable-needs-unlock", ok,
            "a lockable (NVM_RW_L) location must set unlock_required",
            where(mod, fn))
+    # ... and nothing else decides it: whether the bracket is needed follows
+    # from the declared location types (and the caller's force_unlock), not
+    # from what the unit's lock byte happens to hold - a bank found unlocked
+    # must still be left locked
+    odd = []
+    for n in cfg.reachable:
+        if n.kind == "stmt" and isinstance(n.ast, ast.Assign) and any(
+                unparse(t_) == "unlock_required" for t_ in n.ast.targets):
+            v_ = n.ast.value
+            if isinstance(v_, ast.Constant) and isinstance(v_.value, bool):
+                continue
+            if unparse(v_) in ("force_unlock", "bool(force_unlock)"):
+                continue
+            odd.append(unparse(n.ast, 120))
+    run.ob("R-MEMW-LOCK", Q + "#unlock-decided-by-declaration", not odd,
+           "unlock_required is also set by `%s`: when the bracket is "
+           "skipped because of what the unit reports, a write that returns "
+           "normally leaves a lockable bank unlocked" % "`, `".join(odd),
+           where(mod, fn))
 
     # ---- R-MEMW-CHECK -----------------------------------------------------
     run.rule("R-MEMW-CHECK", "None / framing-error / echo tests after each "
@@ -673,8 +692,26 @@ def _check_value_to_raw(run, repo, world, mod):
     fn = nv.methods["value_to_raw"][1]
     Q = LOC + ".NumericValue.value_to_raw"
     from ..unroll import detable
+    from ..normal import normalise
+    from ..memseq import PRIMITIVES
+    # helpers introduced around the conversion (a classmethod that maps the
+    # MASK / TMASK literals) are inlined first
+    fn = normalise(fn, world, LOC, nv, primitives=PRIMITIVES, aliases=False)
     fn, _ = detable(fn)
     ps = paths.summaries(fn)
+
+    def _feasible(p_):
+        # the metaclass sets cls.mask / cls.tmask (bytes) exactly when the
+        # corresponding *_supported flag is set (C11 R-MASK): a path on
+        # which a supported pattern is None does not exist
+        c_ = {(unparse(t_), b_) for (t_, b_) in p_.conds}
+        for w_ in ("mask", "tmask"):
+            if ("cls.%s_supported" % w_, True) in c_ and (
+                    ("cls.%s is not None" % w_, False) in c_ or
+                    ("cls.%s is None" % w_, True) in c_):
+                return False
+        return True
+    ps = [p_ for p_ in ps if _feasible(p_)]
     # the numeric encoding: every returned to_bytes call
     tb = []
     for p_ in ps:
